@@ -291,6 +291,27 @@ def build_ops(ck, tmp, n):
             ops.append({"kind": "parse", "input": pd, "fmt": "json", "hier": False, "damaged": True})
         ops.append({"kind": "parse", "input": good, "fmt": "json", "hier": False, "after_damaged": True})
         ops.append({"kind": "parse", "input": good, "fmt": "yaml", "hier": True, "after_damaged": True})
+    # a hierarchy whose dependency is accepted on load and refused when the hierarchy is expanded (its manifest is not CBOR), then an
+    # envelope nested deeper than the parser follows: it is refused in a fresh interpreter, and just so after the failed expansion
+    import cbor2 as _cb
+    import hashlib as _hl
+    bad_man = b"\xff\xff\xff"
+    bad_dep = _cb.dumps(_cb.CBORTag(107, {2: _cb.dumps([_cb.dumps([-16, _hl.sha256(_cb.dumps(bad_man)).digest()])]), 3: bad_man}))
+    root_man = _cb.dumps({1: 1, 2: 5, 3: _cb.dumps({2: [[b"R"]]})})
+    bad_root = _cb.dumps(_cb.CBORTag(107, {2: _cb.dumps([_cb.dumps([-16, _hl.sha256(_cb.dumps(root_man)).digest()])]), 3: root_man, "#dep.suit": bad_dep}))
+    seq = _cb.dumps([12, 0])
+    for _ in range(200):
+        seq = _cb.dumps([32, seq])
+    too_deep = _cb.dumps(_cb.CBORTag(107, {2: _cb.dumps([_cb.dumps([-16, bytes(32)])]), 3: _cb.dumps({1: 1, 2: 1, 7: seq})}))
+    pbr, ptd = os.path.join(tmp, "root_with_bad_dependency.suit"), os.path.join(tmp, "nested_200.suit")
+    with open(pbr, "wb") as fh:
+        fh.write(bad_root)
+    with open(ptd, "wb") as fh:
+        fh.write(too_deep)
+    for fmt in ("yaml", "json"):
+        ops.append({"kind": "parse", "input": pbr, "fmt": fmt, "hier": True, "damaged": True})
+    ops.append({"kind": "parse", "input": ptd, "fmt": "yaml", "hier": False, "after_damaged": True})
+    ops.append({"kind": "parse", "input": ptd, "fmt": "json", "hier": True, "after_damaged": True})
     # storage images under DIFFERENT build configurations in one interpreter: the first configuration gives a role to a class the
     # second one does not know — anything remembered from the first configuration file shows in the second run
     leak = {"SUIT_Envelope_Tagged": {
